@@ -105,6 +105,7 @@ def class_decls(tbl):
             out.append("  public function cat_%s($x) { $this->%s .= $x; return 1; }" % (p, p))
             out.append("  public function poke_%s($o, $x) { $o->%s = $x; return 1; }" % (p, p))
             out.append("  public function chk_%s(%s$x) { return 1; }" % (p, (t + " ") if t else ""))
+            out.append("  public function opt_%s(%s$x = null) { return 1; }" % (p, (t + " ") if t else ""))
         out.append("}")
     return out
 
@@ -184,6 +185,9 @@ def op_lines(ops, emit, fs):
             out.append('try { %s } catch (Throwable $e) { %s }' % (emit("tag(%s)" % rd), emit('"T"')))
             st = "$o%d->cat_%s(%s);" % (var, p, php_val(v)) if (path == "method" or nonpub) else "$o%d->%s .= %s;" % (var, p, php_val(v))
             out.append('try { %s %s } catch (Throwable $e) { %s }' % (st, emit('"A"'), emit('"R"')))
+        elif o[0] == "callopt":
+            _, var, p, v = o
+            out.append('try { $o%d->opt_%s(%s); %s } catch (Throwable $e) { %s }' % (var, p, php_val(v), emit('"A"'), emit('"R"')))
         elif o[0] == "call":
             _, var, p, v = o
             out.append('try { $o%d->chk_%s(%s); %s } catch (Throwable $e) { %s }' % (var, p, php_val(v), emit('"A"'), emit('"R"')))
@@ -260,6 +264,7 @@ def coq_tbl(tbl):
                 d = "(Some (DConc %s))" % coq_cty(t)
             ps.append('("%s", %s)' % (p, d))
             ms.append('("chk_%s", %s)' % (p, d))
+            ms.append('("opt_%s", %s)' % (p, d))          # the same parameter with a `= null` default
             if p == ctor:
                 ct = '(Some ("%s", %s))' % (p, d)
         items.append('("%s", {| g_params := %s; g_props := %s; g_meths := %s; g_ctor := %s |})' % (
@@ -293,6 +298,8 @@ def coq_ops(ops, lines=None):
             res.append('OWrite %s %d%%nat "%s" %s' % (pa, o[2], o[3], coq_val(o[4])))
         elif o[0] == "call":
             res.append('OCall %d%%nat "chk_%s" %s' % (o[1], o[2], coq_val(o[3])))
+        elif o[0] == "callopt":
+            res.append('OCall %d%%nat "opt_%s" %s' % (o[1], o[2], coq_val(o[3])))
         elif o[0] == "newc":
             res.append('ONewC "%s" %s %s' % (o[2], coq_list(coq_cty(a) for a in o[3]), coq_val(o[4])))
         elif o[0] == "newraw":
@@ -368,6 +375,10 @@ def probe_all(tbl_by_name, live, rot, calls=True, extras=None):
                     for v in (VALS[k % 7], VALS[(k + 3) % 7], matching_value(args[0]) if args and args[0] in ARGS_X else VALS[1]):
                         ops.append(("write", "poke", var, p, v, wsel))
                     ops.append(("read", var, p))
+            if extras:
+                # the same typed parameter declared with a `= null` default
+                for v in (VALS[k % 6], VALS[(k + 2) % 6], VALS[(k + 4) % 6]):
+                    ops.append(("callopt", var, p, v))
             for v in (VALS if calls else []):
                 if v[0] != "n":           # null into a typed parameter is the recorded finding: probed separately
                     ops.append(("call", var, p, v))
@@ -488,6 +499,23 @@ def enumerated_slot():
             live = [(0, "Slot", [a]), (1, "Slot", [b]), (2, "SPair", [b, a])]
             ops += probe_all(byn, live, len(cases))
             cases.append({"tbl": tbl, "ops": ops, "gen": "slot", "factory": len(cases) % 2 == 1})
+    return cases
+
+
+def enumerated_pairperm():
+    """Pair<a,b> and Pair<b,a> — the same type arguments in the other order — in both creation orders, for every a != b;
+    every member of both instances probed"""
+    cases = []
+    tbl = [PAIR]
+    byn = {"Pair": PAIR}
+    for a in ARGS:
+        for b in ARGS:
+            if a == b:
+                continue
+            ops = [("new", 0, "Pair", [a, b]), ("new", 1, "Pair", [b, a])]
+            live = [(1, "Pair", [b, a]), (0, "Pair", [a, b])]
+            ops += probe_all(byn, live, len(cases))
+            cases.append({"tbl": tbl, "ops": ops, "gen": "pairperm", "factory": len(cases) % 2 == 1})
     return cases
 
 
@@ -667,6 +695,8 @@ def op_key(o):
         return "store:%s:%s" % (o[1], o[4][0])
     if o[0] == "call":
         return "call:%s" % o[3][0]
+    if o[0] == "callopt":
+        return "call-default-null:%s" % o[3][0]
     return "read"
 
 
@@ -683,7 +713,7 @@ def op_at(ops, pos):
 def norm_op(o):
     """JSON round trip: value pairs back to tuples"""
     o = list(o)
-    vi = {"write": 4, "newc": 4, "call": 3, "concat": 4}.get(o[0])
+    vi = {"write": 4, "newc": 4, "call": 3, "callopt": 3, "concat": 4}.get(o[0])
     if vi is not None:
         o[vi] = tuple(o[vi])
     return tuple(o)
@@ -734,7 +764,7 @@ def main(ck):
         for c in mcases:
             c["val"] = tuple(c["val"])
     else:
-        cases = enumerated(ck.tier) + enumerated_c(ck.tier, rng) + enumerated_nest(ck.tier, rng) + enumerated_slot() + enumerated_parent() + seeded(rng, 900 if ck.tier == "quick" else 30000)
+        cases = enumerated(ck.tier) + enumerated_c(ck.tier, rng) + enumerated_nest(ck.tier, rng) + enumerated_slot() + enumerated_parent() + enumerated_pairperm() + seeded(rng, 900 if ck.tier == "quick" else 30000)
         mcases = member_cases()
         groups = conc_groups(rng, 30 if ck.tier == "quick" else 1500)
 
